@@ -25,6 +25,9 @@ from . import result as R
 from . import findings as F
 
 HERE = os.path.dirname(os.path.dirname(os.path.abspath(__file__)))
+# VERIF_OUT (tools/seed_regress.py only): write replays/evidence elsewhere so that a regression run on a scratch copy of the
+# repository (VERIF_REPO) leaves the committed evidence alone
+OUT = os.environ.get("VERIF_OUT") or HERE
 
 
 def _load(pid):
@@ -131,7 +134,7 @@ def main(argv=None):
     exit_code = 0
     viol_lines = []
     if new_fail:
-        os.makedirs(os.path.join(HERE, "replays"), exist_ok=True)
+        os.makedirs(os.path.join(OUT, "replays"), exist_ok=True)
         seen_sig = {}
         for f in new_fail:
             seen_sig.setdefault(f["sig"], f)
@@ -150,7 +153,7 @@ def main(argv=None):
                 # both replays violate the property but differ in detail: the implementation itself iterates a
                 # set of objects hashed by address; the violation stands, the difference is recorded
                 f["detail"] = {"first_replay": a, "second_replay": b, "note": "replays agree on the verdict, differ in detail"}
-            path = os.path.join(HERE, "replays", f"{pid}-{n}.json")
+            path = os.path.join(OUT, "replays", f"{pid}-{n}.json")
             with open(path, "w") as fh:
                 json.dump(
                     {"property": pid, "tier": ns.tier, "seed": seed, "sig": sig, "case": f["case"],
@@ -193,8 +196,8 @@ def main(argv=None):
         "wall_s": round(wall, 2),
         "violations": len({f["sig"] for f in new_fail}),
     }
-    os.makedirs(os.path.join(HERE, "evidence"), exist_ok=True)
-    R.write_evidence(os.path.join(HERE, "evidence", f"{pid}.json"), ev)
+    os.makedirs(os.path.join(OUT, "evidence"), exist_ok=True)
+    R.write_evidence(os.path.join(OUT, "evidence", f"{pid}.json"), ev)
     print(
         f"{pid} tier={ns.tier} seed={seed} executions={total.evaluations} transitions={total.transitions} "
         f"states={ev['coverage']['states']} outcomes={distinct_outcomes} nontrivial={len(total.nontrivial)} "
